@@ -40,6 +40,11 @@ def static_check(ctx, mode, total, extra="", select=None, oracle_relevant=None, 
         ctx.finish()
     thr = hybrid_threshold()
     mn = max_n or (9 if ctx.thorough else 8)
+    # one small case in sixteen runs on driver/vdpll --partial (a correct external backend that leaves don't-care
+    # variables unassigned) behind the recording solver: exercises every reading of a None value, with exact replay
+    vd = os.path.join(DRIVER, "vdpll")
+    if os.path.exists(vd) and "--faults" not in extra and "--large" not in extra:
+        extra = (extra + " --external " + vd).strip()
     shards = run_mode(ctx, h, d, mode, total, extra=extra, tag=tag,
                       drv_modes=[("static", "--thr %d" % thr), ("spec", ("--max-n %d " % mn) + spec_opts)])
     for i, (mode2, total2, extra2) in enumerate(more_runs):
